@@ -28,6 +28,8 @@ import RotoV.Model.Gate
 import RotoV.Model.GateTab
 import RotoV.Generated.Gate
 import RotoV.Generated.GateTab
+import RotoV.Model.GateUF
+import RotoV.Generated.GateUF
 
 namespace Driver.C04
 open RotoV.Gate RotoV.GateTab
@@ -200,9 +202,51 @@ def handleTable (hex : String) : Option String := do
     pure (" ".intercalate (t.map (fun e => s!"#{hexOf e.1}{if e.2.isSome then "+" else "-"}")))
   | _ => none
 
+/-! `c04 uf SLOT…` — a dumped union-find table (`UnionFind::inner` of a real package), SLOT ::=
+   `V<k><index>` (k = v | i | f | r | e: Var, IntVar, FloatVar, RecordVar, ExplicitVar) | `T<n>` (any other
+   type, `n` an opaque number). The modelled `find` (kinds as generated from the source) is run for every index
+   in turn **on one table** (each lookup sees what the earlier ones compressed). Answer: the answers in order
+   (`panic` where the model says the real code panics), `|`, the table left. -/
+section uf
+open RotoV.GateUF
+
+def ufSlot (s : String) : Option (Slot Nat) :=
+  match s.toList with
+  | 'T' :: ds => (String.ofList ds).toNat?.map Slot.ty
+  | 'V' :: k :: ds => do
+    let kind ← match k with
+      | 'v' => some VarKind.var | 'i' => some VarKind.intVar | 'f' => some VarKind.floatVar
+      | 'r' => some VarKind.recordVar | 'e' => some VarKind.explicitVar | _ => none
+    let i ← (String.ofList ds).toNat?
+    pure (Slot.var kind i)
+  | _ => none
+
+def showSlot : Slot Nat → String
+  | .ty n => s!"T{n}"
+  | .var k i =>
+    let c := match k with
+      | .var => "v" | .intVar => "i" | .floatVar => "f" | .recordVar => "r" | .explicitVar => "e"
+    s!"V{c}{i}"
+
+def handleUf (toks : List String) : Option String := do
+  let table ← toks.mapM ufSlot
+  let fuel := table.length + 1
+  let ff := followsOf RotoV.Gen.GateUF.findFollows
+  let (tb, acc) := (List.range table.length).foldl (fun (st : List (Slot Nat) × List String) i =>
+    match find ff fuel st.1 i with
+    | none => (st.1, "panic" :: st.2)
+    | some (t, tb') => (tb', showSlot t :: st.2)) (table, [])
+  -- the read-only lookup on the table the history left: must give the same answers
+  let refs := (List.range tb.length).map (fun i =>
+    match findRef (followsOf RotoV.Gen.GateUF.findRefFollows) fuel tb i with
+    | none => "panic" | some t => showSlot t)
+  pure (" ".intercalate acc.reverse ++ " | " ++ " ".intercalate (tb.map showSlot) ++ " | " ++ " ".intercalate refs)
+end uf
+
 def handle (args : List String) : String :=
   match args with
   | ["get", hex] => (handleGet hex).getD "bad-op"
+  | "uf" :: toks => (handleUf toks).getD "bad-op"
   | ["table", hex] => (handleTable hex).getD "bad-op"
   | ["tables"] =>
     -- the generated tables, for the evidence file
